@@ -4913,6 +4913,12 @@ func (t *Terminal) Loop() error {
 							// while the "Loading .." message was up
 							t.previewer.pending = false
 							t.previewed.version = noPreviewedVersion
+							// The version was already taken over when the message was shown:
+							// this is the first output of the new command
+							t.previewer.following.Force(t.activePreviewOpts.follow)
+							if t.previewer.following.Enabled() {
+								t.previewer.offset = 0
+							}
 						}
 						if t.hasPreviewWindow() && t.previewer.following.Enabled() {
 							t.previewer.offset = util.Max(t.previewer.offset, len(t.previewer.lines)-(t.pwindow.Height()-t.activePreviewOpts.headerLines))
